@@ -870,7 +870,7 @@ func translate(fset *token.FileSet, fd *ast.FuncDecl, tg target, sigs map[string
 
 func main() {
 	repo := flag.String("repo", "/repo", "repository")
-	out := flag.String("out", "", "output file (Trans.lean)")
+	out := flag.String("out", "", "output directory (lean/SlugModel/Generated): one file Tr_<name>.lean per function and Trans.lean importing them")
 	flag.Parse()
 	fset := token.NewFileSet()
 	files := map[string]*ast.File{}
@@ -898,38 +898,70 @@ func main() {
 			}()
 		}
 	}
-	var b strings.Builder
-	b.WriteString("import SlugModel.GoLib\n")
-	b.WriteString("/-! GENERATED by harness/cmd/go2lean from /repo — do not edit.\n")
-	b.WriteString("Each definition is the translation of the Go function of the same name (see the translator for the\nsupported subset and the reading of types).  Lemmas/Trans*.lean prove the hand-written model equal to these. -/\n")
-	b.WriteString("set_option linter.unusedVariables false\nnamespace Slug.Gen\nopen Slug\n\n")
+	write := func(name, content string) {
+		if *out == "" {
+			fmt.Print(content)
+			return
+		}
+		p := filepath.Join(*out, name)
+		if old, err := os.ReadFile(p); err == nil && string(old) == content {
+			return
+		}
+		if err := os.WriteFile(p, []byte(content), 0644); err != nil {
+			fmt.Fprintln(os.Stderr, err)
+			os.Exit(1)
+		}
+	}
 	status := map[string]string{}
+	var mods []string
 	for _, tg := range targets {
+		var b strings.Builder
+		b.WriteString("import SlugModel.GoLib\n")
 		f := files[filepath.Join(*repo, tg.file)]
 		var fd *ast.FuncDecl
 		if f != nil {
 			fd = findFunc(f, tg.recv, tg.name)
 		}
+		var text string
+		var err error
 		if fd == nil {
-			status[tg.lean] = "not found in " + tg.file
-			b.WriteString(fmt.Sprintf("-- %s: not found in %s\n\n", tg.name, tg.file))
-			continue
+			err = fmt.Errorf("not found in %s", tg.file)
+		} else {
+			text, err = translate(fset, fd, tg, sigs)
 		}
-		text, err := translate(fset, fd, tg, sigs)
+		// one file per function, importing the files of the translated functions it calls, so that a
+		// function that leaves the supported subset breaks only the obligations that depend on it
+		if err == nil {
+			for _, other := range targets {
+				if other.lean != tg.lean && strings.Contains(text, "Gen."+other.lean+" ") {
+					b.WriteString("import SlugModel.Generated.Tr_" + other.lean + "\n")
+				}
+			}
+		}
+		b.WriteString(fmt.Sprintf("/-! GENERATED by harness/cmd/go2lean from /repo/%s — do not edit.\nTranslation of the Go function `%s` (see the translator for the supported subset and the reading of\ntypes).  Lemmas/TrEq_%s.lean proves the hand-written model function equal to it. -/\n", tg.file, tg.name, tg.lean))
+		b.WriteString("set_option linter.unusedVariables false\nnamespace Slug.Gen\nopen Slug\n\n")
 		if err != nil {
 			status[tg.lean] = "untranslatable: " + err.Error()
 			b.WriteString(fmt.Sprintf("-- %s (%s): untranslatable: %s\n\n", tg.name, tg.file, err.Error()))
-			continue
+		} else {
+			status[tg.lean] = "ok"
+			b.WriteString(fmt.Sprintf("/-- `%s` of %s -/\n%s\n\n", tg.name, tg.file, text))
 		}
-		status[tg.lean] = "ok"
-		b.WriteString(fmt.Sprintf("/-- `%s` of %s -/\n%s\n\n", tg.name, tg.file, text))
+		b.WriteString("end Slug.Gen\n")
+		write("Tr_"+tg.lean+".lean", b.String())
+		mods = append(mods, "SlugModel.Generated.Tr_"+tg.lean)
 	}
+	var b strings.Builder
+	for _, m := range mods {
+		b.WriteString("import " + m + "\n")
+	}
+	b.WriteString("/-! GENERATED by harness/cmd/go2lean from /repo — do not edit.\nAll translated functions, and which of them the translator could translate on this run. -/\nnamespace Slug.Gen\n\n")
 	keys := make([]string, 0, len(status))
 	for k := range status {
 		keys = append(keys, k)
 	}
 	sort.Strings(keys)
-	b.WriteString("/-- which functions the translator could translate on this run -/\ndef translated : List (String × String) := [")
+	b.WriteString("def translated : List (String × String) := [")
 	for i, k := range keys {
 		if i > 0 {
 			b.WriteString(", ")
@@ -937,16 +969,5 @@ func main() {
 		b.WriteString(fmt.Sprintf("(%q, %q)", k, status[k]))
 	}
 	b.WriteString("]\n\nend Slug.Gen\n")
-	content := b.String()
-	if *out == "" {
-		fmt.Print(content)
-		return
-	}
-	if old, err := os.ReadFile(*out); err == nil && string(old) == content {
-		return
-	}
-	if err := os.WriteFile(*out, []byte(content), 0644); err != nil {
-		fmt.Fprintln(os.Stderr, err)
-		os.Exit(1)
-	}
+	write("Trans.lean", b.String())
 }
